@@ -637,7 +637,10 @@ func (cr *caseRun) opRestart() { cr.opRestartWith(nil) }
 // opRestartWith: graceful Exit and restart; [whenClosed], if given, runs once the topics
 // and channels have been closed and flushed (Exit then still waits for the connection
 // handlers to return).
-func (cr *caseRun) opRestartWith(whenClosed func()) {
+func (cr *caseRun) opRestartWith(whenClosed func()) { cr.opRestartWithBefore(whenClosed, nil) }
+
+// opRestartWithBefore: beforeRecord runs after Exit has returned and before ERestart is recorded
+func (cr *caseRun) opRestartWithBefore(whenClosed func(), beforeRecord func()) {
 	cr.settle()
 	for _, sc := range cr.clients {
 		if whenClosed == nil {
@@ -661,6 +664,9 @@ func (cr *caseRun) opRestartWith(whenClosed func()) {
 		for _, sc := range cr.clients {
 			sc.c.close()
 		}
+	}
+	if beforeRecord != nil {
+		beforeRecord()
 	}
 	cr.recordMeta()
 	cr.ev("ERestart")
